@@ -200,6 +200,15 @@ func ZZ_C06_Scene() {
 		} else {
 			zz.Assert(node.Translation == nil, "node without a translation")
 		}
+		// material: each node's primitive carries its own model's material (or none)
+		if mm := scene.Models[k].Material; mm == nil {
+			zz.Assert(prim.Material == nil, "a model without a material is stored without one")
+		} else {
+			zz.Assert(prim.Material != nil, "a model with a material is stored with one")
+			if prim.Material != nil && *prim.Material >= 0 && *prim.Material < len(g.Materials) {
+				zz.Assert(g.Materials[*prim.Material].Name == mm.Name, "the stored material is the model's material")
+			}
+		}
 		pa, ok := prim.Attributes["POSITION"]
 		zz.Assert(ok, "POSITION attribute present")
 		if !ok || prim.Indices == nil {
